@@ -25,14 +25,17 @@ CFG = {
                  "correspondence check",
     "design_ref": "DESIGN.md §4 C20",
     "n_quick": 96, "n_thorough": 600,
-    "rule": "11 fixed corner cases (the repaired defect's input at 2^-7 and 2^-20, the known-finding example, a sparse "
-            "sliver that leaves input points without triangles) + point sets in general position (no 3 collinear, no 4 "
+    "rule": "12 fixed corner cases (the repaired defect's input at 2^-7 and 2^-20, the known-finding example, a sparse "
+            "sliver that leaves input points without triangles, a 24-spoke wheel) + point sets in general position (no 3 collinear, no 4 "
             "concyclic: exact integer rejection): (i) integer grids of extent <= 127 (<= 254 for the large class) where "
             "every float64 operation of the implementation incl. the super-triangle tests is exact, 3-40 points "
             "model-compared, 1/16 of the cases 41-~125 points checker only, uniform / clustered / flat-hull / near-line / "
             "strip / ring; (ii) 1/8 sparse thin near-collinear slivers (4-12 points, 11 directions, length 2^5..2^16 steps, "
             "sideways spread 1-40 steps: aspect ratios down to 1/65536) admitted by an exact shadow run that requires every "
-            "float64 predicate to have the exact sign with a 2^-40 relative margin; (iii) 1/16 grid inputs with 1-3 exactly "
+            "float64 predicate to have the exact sign with a 2^-40 relative margin; (iii) 1/8 wheels: 8-64 rim points in convex position (perturbed circle / "
+            "ellipse / parabola arc, radius 150-3900, optional nested ring) plus 1-3 hub points near the centre inserted "
+            "last, first or in the middle, admitted by the same faithful-run filter (cavities of up to ~60 triangles; the "
+            "largest cavity per case is recorded as max-cavity:*); (iv) 1/16 grid inputs with 1-3 exactly "
             "repeated points (outside the statement: judged on vertex identity, attribute lengths and the four conjuncts "
             "only); random insertion order; 3/4 of the cases scaled by 2^-20..2^20, half of those offset up to 2^30 (2^40 for "
             "slivers) with the metamorphic oracle 'same triangle set as unscaled'; distinct by (points, scale, offset); "
